@@ -111,7 +111,19 @@ func (x *Exec) execInstr(fr *frame, st *State, in ssa.Instruction) {
 		if !ok {
 			bail("%s: store through non-pointer", fr.name)
 		}
-		x.store(st, p, x.operand(fr, st, i.Val))
+		val := x.operand(fr, st, i.Val)
+		if fa, isFA := i.Addr.(*ssa.FieldAddr); isFA && fr.top && x.fc != nil && x.fc.AtStore != nil {
+			stt := fa.X.Type().Underlying().(*types.Pointer).Elem().Underlying().(*types.Struct)
+			for _, c := range x.fc.AtStore[stt.Field(fa.Field).Name()] {
+				o := x.loopOpts(fr, nil)
+				o.binds = append(o.binds, map[string]Value{"value": val})
+				g := x.evalGoalClause(fr, st, c, o)
+				n := x.count(fr.name + "#atstore")
+				x.vc.oblige(&Obligation{Name: fmt.Sprintf("%s#atstore.%s@%d", fr.name, stt.Field(fa.Field).Name(), n), Kind: "pre", Func: fr.name,
+					Guard: st.reach, Goal: g, Src: "at every store to ." + stt.Field(fa.Field).Name() + ": " + c.Src, Pos: fmt.Sprintf("%s:%d", c.File, c.Line)})
+			}
+		}
+		x.store(st, p, val)
 	case *ssa.UnOp:
 		x.unop(fr, st, i)
 	case *ssa.BinOp:
